@@ -486,18 +486,45 @@ theorem compileDate_wf (cu : Culture) (hcu : cu.monthHeadsEmpty = true) (ptext :
       | split at h)
   · exact steppedOf_wf .date rfl _ hcu _ p h
 
-/-- every LocalDateTime pattern `compile` accepts is well formed -/
+theorem compileDTText_wf (tm : Tmpl) (cu : Culture) (hcu : cu.monthHeadsEmpty = true) (t : Text) (p : Pat)
+    (h : compileDTText tm cu t = .ok p) : DtWF p ∨ ∃ cu' used segs, p = .segmented cu' used segs := by
+  unfold compileDTText at h
+  cases hc : compileCustom (.datetime tm) cu t with
+  | ok c =>
+    rw [hc] at h
+    left; exact steppedOf_wf (.datetime tm) rfl cu hcu t p (by rw [hc]; exact h)
+  | error e =>
+    rw [hc] at h
+    cases e <;> first
+      | (simp only [steppedOf] at h; cases h; done)
+      | (right
+         dsimp only at h
+         unfold compileSegmented at h
+         cases h1 : compileLoopDT cu t.length t ⟨0, [], []⟩ with
+         | error e => rw [h1] at h; cases h
+         | ok st =>
+           rw [h1] at h; dsimp only at h
+           cases h2 : validateUsed st.used with
+           | error e => rw [h2] at h; cases h
+           | ok u =>
+             rw [h2] at h; dsimp only at h
+             cases h3 : buildCheck st.used with
+             | error e => rw [h3] at h; cases h
+             | ok u' => rw [h3] at h; injection h with h; exact ⟨_, _, _, h.symm⟩)
+
+/-- every LocalDateTime pattern `compile` accepts is a well-formed stepped pattern, or a pattern with embedded
+    date / time patterns -/
 theorem compileDateTime_wf (tm : Tmpl) (cu : Culture) (hcu : cu.monthHeadsEmpty = true) (ptext : Text) (p : Pat)
-    (h : compileDateTime tm cu ptext = .ok p) : DtWF p := by
+    (h : compileDateTime tm cu ptext = .ok p) : DtWF p ∨ ∃ cu' used segs, p = .segmented cu' used segs := by
   unfold compileDateTime at h
   split at h
   · cases h
   · repeat' (first
-      | exact steppedOf_wf (.datetime tm) rfl _ invariantCulture_monthHeadsEmpty _ p h
-      | exact steppedOf_wf (.datetime tm) rfl _ hcu _ p h
+      | exact Or.inl (steppedOf_wf (.datetime tm) rfl _ invariantCulture_monthHeadsEmpty _ p h)
+      | exact compileDTText_wf tm cu hcu _ p h
       | cases h
       | split at h)
-  · exact steppedOf_wf (.datetime tm) rfl _ hcu _ p h
+  · exact compileDTText_wf tm cu hcu _ p h
 
 /-- **success_value_valid** for LocalDate: whatever pattern text was accepted (default template, ISO calendar), in
     whatever culture record whose month tables start with the empty entry, a successful parse of any text carries
@@ -511,12 +538,16 @@ theorem date_success_valid (cu : Culture) (hcu : cu.monthHeadsEmpty = true) (pte
 
 /-- **success_value_valid** for LocalDateTime: whatever pattern text was accepted, whatever valid ISO template
     value: a successful parse of any text carries a valid date and a time inside the day.  (The pattern object
-    parses with `effTmpl tm ptext`: the built-in patterns behind `o O r R s S` keep the default template.) -/
+    parses with `effTmpl tm ptext`: the built-in patterns behind `o O r R s S` keep the default template.)
+    Patterns with embedded `ld<…>` / `lt<…>` parts (`Pat.segmented`) are not covered by this theorem. -/
 theorem datetime_success_valid (tm : Tmpl) (htm : TmplOK tm) (cu : Culture) (hcu : cu.monthHeadsEmpty = true) (ptext : Text)
-    (p : Pat) (hp : compileDateTime tm cu ptext = .ok p) (l : Text) (v : List Int)
+    (p : Pat) (hp : compileDateTime tm cu ptext = .ok p) (hns : ∀ cu' u s, p ≠ .segmented cu' u s) (l : Text) (v : List Int)
     (h : parsePat (.datetime (effTmpl tm ptext)) l p = .ok (some v)) :
     ∃ y m d nod, v = [y, m, d, nod] ∧ validDate y m d ∧ 0 ≤ nod ∧ nod < 86400000000000 := by
-  obtain ⟨c, rfl, h1, h2, h3⟩ := compileDateTime_wf tm cu hcu ptext p hp
+  obtain ⟨c, rfl, h1, h2, h3⟩ : DtWF p := by
+    rcases compileDateTime_wf tm cu hcu ptext p hp with h | ⟨cu', u, s, e⟩
+    · exact h
+    · exact absurd e (hns cu' u s)
   simp only [parsePat] at h
   have htm' : TmplOK (effTmpl tm ptext) := by
     unfold effTmpl
@@ -732,8 +763,37 @@ theorem duration_success_valid (cu : Culture) (ptext : Text) (p : Pat) (hp : com
 
 /-- **parse_total** for LocalDate and LocalDateTime pattern objects without a calendar field (`patOK`): for every
     text a success or a failure result, never an exception (era and text fields included) -/
-theorem datetime_parse_total (tm : Tmpl) (p : Pat) (hp : patOK p = true) (l : Text) :
-    ∃ r, parsePat (.datetime tm) l p = .ok r :=
-  parsePat_total (.datetime tm) l p hp
+theorem datetime_parse_total (tm : Tmpl) (p : Pat)
+    (hp : patOK p = true ∨ ∃ cu used segs, p = .segmented cu used segs ∧ segs.all segOK = true) (l : Text) :
+    ∃ r, parsePat (.datetime tm) l p = .ok r := by
+  rcases hp with hp | ⟨cu, used, segs, rfl, hs⟩
+  · exact parsePat_total (.datetime tm) l p hp
+  · simp only [parsePat]
+    exact parseSegmented_total tm cu used segs l hs
+
+/-- Instant patterns are LocalDateTime patterns behind an adapter: creation is total, and the LocalDateTime theorems
+    apply to the pattern object (`compileInstant` builds it with `compileDTText`) -/
+theorem compileInstant_wf (tm : Tmpl) (cu : Culture) (hcu : cu.monthHeadsEmpty = true) (ptext : Text) (p : Pat)
+    (h : compileInstant tm cu ptext = .ok p) : DtWF p ∨ ∃ cu' used segs, p = .segmented cu' used segs := by
+  unfold compileInstant at h
+  split at h
+  · cases h
+  · split at h
+    · exact compileDTText_wf tm cu hcu _ p h
+    · cases h
+  · exact compileDTText_wf tm cu hcu _ p h
+
+/-- **success_value_valid** for Instant patterns without embedded parts: the parsed UTC date-time is a valid date and
+    a time inside the day (its conversion to an Instant, `Instant._ctor(days, nano_of_day)`, is outside this model) -/
+theorem instant_success_valid (tm : Tmpl) (htm : TmplOK tm) (cu : Culture) (hcu : cu.monthHeadsEmpty = true) (ptext : Text)
+    (p : Pat) (hp : compileInstant tm cu ptext = .ok p) (hns : ∀ cu' u s, p ≠ .segmented cu' u s) (l : Text) (v : List Int)
+    (h : parsePat (.datetime tm) l p = .ok (some v)) :
+    ∃ y m d nod, v = [y, m, d, nod] ∧ validDate y m d ∧ 0 ≤ nod ∧ nod < 86400000000000 := by
+  obtain ⟨c, rfl, h1, h2, h3⟩ : DtWF p := by
+    rcases compileInstant_wf tm cu hcu ptext p hp with h | ⟨cu', u, s, e⟩
+    · exact h
+    · exact absurd e (hns cu' u s)
+  simp only [parsePat] at h
+  exact parseCompiled_datetime_valid _ htm c h1 h2 h3 l v h
 
 end Pyoda.C08
